@@ -59,7 +59,11 @@ func DeepInstrs(root *ssa.Function, enter func(*ssa.Function) bool, pred func(ss
 					out = append(out, Site{Instr: in, Fn: fn, Chain: append([]*ssa.Call(nil), chain...)})
 				}
 				if call, ok := in.(*ssa.Call); ok && enter != nil {
-					if g := call.Call.StaticCallee(); g != nil && enter(g) {
+					g := call.Call.StaticCallee()
+					if g != nil && g.Blocks == nil && Origin(g) != nil && Origin(g).Blocks != nil {
+						g = Origin(g)
+					}
+					if g != nil && enter(g) {
 						visit(g, append(append([]*ssa.Call(nil), chain...), call), stack)
 					}
 				}
@@ -100,6 +104,9 @@ func Up(chain []*ssa.Call, v ssa.Value) (ssa.Value, []*ssa.Call) {
 		}
 		call := chain[len(chain)-1]
 		g := call.Call.StaticCallee()
+		if g != nil && p.Parent() != g && Origin(g) == p.Parent() {
+			g = Origin(g)
+		}
 		if g == nil || p.Parent() != g {
 			return v, chain
 		}
